@@ -20,6 +20,11 @@ class Unsupported(Exception):
     pass
 
 
+class Undefined(Unsupported):
+    """the walk meets an operation C++ leaves undefined (shift count out of range)"""
+    pass
+
+
 class _Fork(Exception):
     pass
 
@@ -39,10 +44,13 @@ class Outcome(object):
 
 
 class Walk(object):
-    def __init__(self, f, cont_var, n, c0, init_cls, max_steps=400):
+    def __init__(self, f, cont_var, n, c0, init_cls, max_steps=400, ints=None, local_cont=None):
         self.f, self.cont, self.n, self.c0 = f, cont_var, n, c0
         self.init_cls = list(init_cls)
         self.max_steps = max_steps
+        self.init_ints = dict(ints or {})
+        self.local_cont = dict(local_cont or {})      # record type name -> byte length: a zero-initialised local becomes the container
+        self.cont0, self.n0 = cont_var, n
 
     # -- driver ----------------------------------------------------------------
     def outcomes(self):
@@ -51,7 +59,8 @@ class Walk(object):
             pre = work.pop()
             self.choices, self.ci = list(pre), 0
             self.buf = [("orig", i, c) for i, c in enumerate(self.init_cls)]
-            self.its, self.ints = {}, {}
+            self.cont, self.n = self.cont0, self.n0
+            self.its, self.ints = {}, dict(self.init_ints)
             self.steps = 0
             self.oob = None
             ret = None
@@ -178,9 +187,16 @@ class Walk(object):
                 elif a is None or b is None:
                     raise Unsupported("comparison `%s`" % facts.expr_str(e0))
                 return int({"<": a < b, ">": a > b, "<=": a <= b, ">=": a >= b, "==": a == b, "!=": a != b}[op])
-            if op in ("+", "-", "*"):
+            if op in ("+", "-", "*", "&", "|", "^"):
                 a, b = self.int(e0["c"][0]), self.int(e0["c"][1])
-                return {"+": a + b, "-": a - b, "*": a * b}[op]
+                return {"+": a + b, "-": a - b, "*": a * b, "&": a & b, "|": a | b, "^": a ^ b}[op]
+            if op in ("<<", ">>"):
+                a, b = self.int(e0["c"][0]), self.int(e0["c"][1])
+                w = (facts.ty(self.f, e0) or {}).get("w") or 32
+                if b < 0 or b >= w:
+                    raise Undefined("`%s` shifts a %d-bit value by %d" % (facts.expr_str(e0), w, b))
+                r = (a << b) if op == "<<" else (a >> b)
+                return r & ((1 << w) - 1) if a >= 0 else r
         if k == "UnaryOperator" and e0.get("op") == "!":
             return 0 if self.int(e0["c"][0]) else 1
         if k == "UnaryOperator" and e0.get("op") in ("++", "--") and strip(e0["c"][0]).get("var") in self.ints:
@@ -211,6 +227,12 @@ class Walk(object):
                 if d["k"] != "VarDecl":
                     continue
                 t = facts.tyi(self.f, d.get("t")) or {}
+                if t.get("k") == "rec" and t.get("name") in self.local_cont and self.cont is None:
+                    init = d["c"][0] if d.get("c") else None
+                    if init is None or (init["k"] == "CXXConstructExpr" and all(c_["k"] == "CXXDefaultArgExpr" for c_ in init.get("c", []))):
+                        self.cont, self.n = d["var"], self.local_cont[t["name"]]
+                        self.buf = [("const", 0)] * self.n
+                        continue
                 if not d.get("c"):
                     if t.get("k") == "ptr":
                         self.its[d["var"]] = None
@@ -251,7 +273,11 @@ class Walk(object):
             except _Brk:
                 pass
         elif k == "ReturnStmt":
-            raise _Ret(self.int(s["c"][0]) if s.get("c") else None)
+            if s.get("c") and (facts.ty(self.f, s["c"][0]) or {}).get("k") in ("int", "bool", "enum"):
+                raise _Ret(self.int(s["c"][0]))
+            raise _Ret(None)
+        elif k == "CXXThrowExpr" or (k == "ExprWithCleanups" and s["c"][0]["k"] == "CXXThrowExpr"):
+            raise _Ret(("throw",))
         elif k == "BreakStmt":
             raise _Brk()
         else:
@@ -286,6 +312,9 @@ class Walk(object):
             if tgt["k"] == "DeclRefExpr" and tgt.get("var") in self.its:
                 self.its[tgt["var"]] += d if e["op"] == "+=" else -d
                 return
+            if tgt["k"] == "DeclRefExpr" and tgt.get("var") in self.ints:
+                self.ints[tgt["var"]] += d if e["op"] == "+=" else -d
+                return
             i = self.cell(tgt)
             if i is not None and d == 1:
                 self.bump(i, e["op"] == "+=")
@@ -302,7 +331,7 @@ class Walk(object):
             if i is not None:
                 v = facts.cval(e["c"][1])
                 if v is None:
-                    raise Unsupported("store of `%s`" % facts.expr_str(e["c"][1])[:60])
+                    v = self.int(e["c"][1])
                 self.buf[i] = ("const", int(v) & 0xff)
                 return
         raise Unsupported("statement `%s`" % facts.expr_str(e)[:80])
@@ -375,3 +404,38 @@ def describe(b):
     if b[0] in ("inc", "dec"):
         return "old value %s 1" % ("+" if b[0] == "inc" else "-")
     return str(b)
+
+
+def prefix_mask_check(f, param_var, type_sizes, max_prefix):
+    """f builds, in a zero-initialised local address, the mask of a prefix length given by an integer parameter.
+    Runs the walk for every prefix length 0..max_prefix; returns (None, n) when every result is `p` one bits
+    followed by zeros, else (message, n)."""
+    n = 0
+    for p in range(max_prefix + 1):
+        w = Walk(f, None, 0, 0xff, [], ints={param_var: p}, local_cont=type_sizes)
+        try:
+            outs = w.outcomes()
+        except Undefined as e:
+            return "prefix length %d: undefined behaviour: %s" % (p, e), n
+        for o in outs:
+            n += 1
+            if o.oob is not None:
+                return "prefix length %d: the walk stores at position %d of a %d-byte address" % (p, o.oob[0], len(o.buf)), n
+            if o.ret == ("throw",):
+                return "prefix length %d is rejected" % p, n
+            size = len(o.buf)
+            if not size:
+                raise Unsupported("no zero-initialised local address found")
+            got = []
+            for b in o.buf:
+                if b[0] != "const":
+                    raise Unsupported("byte %r" % (b,))
+                got.append(b[1])
+            want = [0] * size
+            for i in range(size):
+                bits = min(8, max(0, p - 8 * i))
+                want[i] = (0xff << (8 - bits)) & 0xff
+            if got != want:
+                return "prefix length %d gives the mask %s, expected %s" % (
+                    p, ":".join("%02x" % x for x in got), ":".join("%02x" % x for x in want)), n
+    return None, n
